@@ -499,7 +499,18 @@ func (w *World) confinedObligations(prop string) *FuncResult {
 		var problems []string
 		// the confined field set
 		fields := map[fieldKey]string{}
+		funcAcc := map[*ssa.Function]string{}
 		for _, fs := range cd.Fields {
+			if strings.HasPrefix(fs, "func:") {
+				// a function that only the owning goroutine may run
+				f := w.fnByKey[strings.TrimPrefix(fs, "func:")]
+				if f == nil {
+					problems = append(problems, "no function "+strings.TrimPrefix(fs, "func:")+" in the current tree")
+				} else {
+					funcAcc[f] = fs
+				}
+				continue
+			}
 			parts := strings.SplitN(fs, ".", 3)
 			if len(parts) != 3 {
 				problems = append(problems, "malformed field "+fs)
@@ -605,6 +616,12 @@ func (w *World) confinedObligations(prop string) *FuncResult {
 				}
 			}
 		}
+		for f, name := range funcAcc {
+			naccess++
+			if _, dup := accessors[f]; !dup {
+				accessors[f] = access{name, f.Pos()}
+			}
+		}
 		if naccess == 0 && len(fields) > 0 {
 			problems = append(problems, "no access to any confined field was found (vacuous)")
 		}
@@ -647,7 +664,7 @@ func (w *World) confinedObligations(prop string) *FuncResult {
 				rootNames = append(rootNames, fnKey(r.fn))
 			}
 		}
-		info := fmt.Sprintf("%d confined fields, %d accesses in %d functions of the module; other roots examined: %s", len(fields), naccess, len(accessors), strings.Join(rootNames, ", "))
+		info := fmt.Sprintf("%d confined fields (and functions), %d accesses in %d functions of the module; other roots examined: %s", len(fields)+len(funcAcc), naccess, len(accessors), strings.Join(rootNames, ", "))
 		res.Obls = append(res.Obls, &Obl{Name: "confined{" + cd.Root + "}", Goal: goal, Kind: "confined", Fn: "goroutine-confinement", Prop: []string{prop}, Detail: strings.Join(problems, "; "), Info: info})
 		res.Notes = append(res.Notes, fmt.Sprintf("confinement of %d fields to %s: %d roots (go statements, timer callbacks, functions and methods handed to dependencies, program entry), call graph of the module's own functions (interface calls: every implementing module type; function values: every address-taken function of that signature); sufficient condition for race freedom of the confined state only; accesses through reflection/unsafe and goroutines started by the runtime are not seen", len(fields), cd.Root, len(cw.roots)))
 	}
